@@ -5,6 +5,7 @@ import ast
 import re
 import typing as t
 
+from .. import anchors
 from ..cfg import CFG, Node, catches, cfg_of, handler_classes, node_exprs, walk_no_nested
 from ..family import CONVERT_ERROR, CONVERTER, PI, conversion_zone, family, find_subcalls, helper_closure, subconv_attrs
 from ..model import AnalysisError, ClassInfo, FuncInfo, Model, ancestors, unparse
@@ -197,17 +198,16 @@ def rule_no_truthiness_default_on_actual(model: Model, rule_id: str = 'C08-R7') 
     return r
 
 
-TABLES = {
-    'pane.converters._BASIC_CONVERTERS', 'pane.converters._BASIC_WITH_ARGS', 'pane.convert._ABSTRACT_MAPPING',
-    'pane.classes._hash_action', 'pane.field._CONVERT_FNS', 'pane.convert._ScalarType', 'pane.convert._DataType',
-}
+def _tables(model: Model) -> t.Set[str]:
+    return {anchors.scalar_table(model), anchors.args_table(model), anchors.abstract_table(model), anchors.hash_table(model),
+            anchors.joiner_table(model), 'pane.convert._ScalarType', 'pane.convert._DataType'}
 MUT = {'append', 'extend', 'insert', 'remove', 'clear', 'pop', 'sort', 'reverse', 'update', 'setdefault', 'popitem', 'add', 'discard', '__setitem__', '__delitem__'}
 
 
 def rule_tables_immutable(model: Model, rule_id: str = 'C10-R7') -> RuleResult:
     """C10: the module-level dispatch tables are constants; no function writes to them."""
     r = RuleResult(rule_id, 'module-level dispatch tables are never written at run time', floor=5)
-    for tq in sorted(TABLES):
+    for tq in sorted(_tables(model)):
         mod, _, nm = tq.rpartition('.')
         if model.module_of(mod) is None or nm not in model.module(mod).assign_values:
             raise AnalysisError(f"anchor table {tq} not found")
